@@ -256,3 +256,38 @@ def entry_points(chk, F, rid="R-ENTRY"):
                "%s does not restore the builder's scope depth after utap_parse(): a quantifier cut short by the end of "
                "a label (`forall (k : int[0,1]) k + `) leaves its scope pushed, and every later block of the document "
                "is parsed inside it" % fn["q"], "%s:%s" % (fn["file"], fn["line"]))
+
+
+def no_symbol_cache(chk, F):
+    rid = "R-NOCACHE"
+    chk.rule(rid, "the identifier-binding callbacks (expr_identifier, type_name, is_type and what they call on the "
+                  "builder) obtain symbols only from frame_t::resolve on the scope that is current when the callback "
+                  "runs: they read no builder data member that holds a symbol (the lexer consults is_type for the "
+                  "look-ahead token, i.e. possibly before a pending reduction pops a scope)")
+    for cls in ("UTAP::ExpressionBuilder", "UTAP::StatementBuilder", "UTAP::DocumentBuilder"):
+        F.record(cls)
+    sym_fields = set()
+    for cls in ("UTAP::ExpressionBuilder", "UTAP::StatementBuilder", "UTAP::DocumentBuilder", "UTAP::AbstractBuilder"):
+        r = F.records.get(cls)
+        if r:
+            for f in r["fields"]:
+                if "symbol_t" in f["ct"]:
+                    sym_fields.add(f["name"])
+    for start in ("expr_identifier", "type_name", "is_type"):
+        seen, todo, reads = set(), [F.resolve_method("UTAP::DocumentBuilder", start)], []
+        while todo:
+            fn = todo.pop()
+            if fn is None or fn["q"] in seen:
+                continue
+            seen.add(fn["q"])
+            for n in walk(fn["body"]):
+                if n.get("k") == "member" and (n.get("base") is None or n["base"].get("k") == "this") and \
+                        not n.get("method") and (n.get("name") in sym_fields or "symbol_t" in (n.get("t") or "")):
+                    reads.append("%s in %s" % (n["name"], fn["name"]))
+                if n.get("k") == "call" and n.get("ck") == "member" and (n.get("recv") is None or n["recv"].get("k") == "this"):
+                    todo.append(F.resolve_method("UTAP::DocumentBuilder", n["name"], len(n.get("cpt", []))))
+        uses_resolve = any(q.endswith("::resolve") for q in seen)
+        chk.ob(rid, "%s|stateless" % start, not reads and uses_resolve,
+               "%s takes a symbol from builder state (%s) instead of resolving the name in the current scope: a name "
+               "scanned as look-ahead before a scope is popped binds to the dead scope" % (start, sorted(set(reads)))
+               if reads else "%s does not resolve through the frame stack" % start, "src/ExpressionBuilder.cpp")
